@@ -24,6 +24,8 @@ TEMPLATE_V2 = "use $user_message and $HOME"   # ({...} is interpolation syntax o
 def concretise(cls, task, t, rnd=None):
     """The string the LLM returns for this class at this call position (turn t)."""
     marker = "B%dv0" % t
+    if task in V2GEN:
+        return _concretise_gen(cls, task, marker)
     msg_task = task in ("generate_bot_message", "general")
     ok = {"generate_user_intent": "  ask other", "generate_next_steps": "bot answer other",
           "generate_bot_message": '  "the answer is %s"' % marker, "general": "the answer is %s" % marker,
@@ -61,6 +63,14 @@ def concretise(cls, task, t, rnd=None):
         s = {"generate_bot_message": '  "%s %s"' % (DOLLAR, marker), "general": "%s %s" % (DOLLAR, marker),
              "generate_intent_steps_message": '  ask other\nbot answer other\n  "%s %s"' % (DOLLAR, marker),
              "generate_flow_continuation": ' bot answer something\nbot action: bot say "%s %s"' % (DOLLAR, marker)}.get(task, "  $last_user_message")
+    elif cls == "rtdo":           # well-formed, but calls a subflow that does not exist
+        s = "do some_undefined_subflow\nbot answer other"
+    elif cls == "rtexpr":         # well-formed, but an expression fails when evaluated
+        s = ("$x = 1/0\nbot answer other", "if $undefined_value > 3\n  bot answer other")[t % 2]
+    elif cls == "rtloop":         # well-formed, but never comes to an end (event budget)
+        s = "while True\n  bot answer other"
+    elif cls == "rthang":         # well-formed, but loops without producing any event
+        s = "label again\ngoto again"
     elif cls == "userfirst":      # well-formed Colang that first waits for the user
         s = {"generate_next_steps": "user ask other\nbot answer other", "generate_intent_steps_message": "  ask other\nuser ask other\nbot answer other\n  \"late %s\"" % marker,
              "generate_flow_continuation": 'user said "later"\nbot say "late %s"' % marker}.get(task, "  user ask other")
@@ -78,6 +88,45 @@ def concretise(cls, task, t, rnd=None):
         s = (ok[:cut] + s) if rnd.random() < 0.5 else (s + ok[cut:])
     return s
 
+
+V2GEN = {"generate_value_from_instruction": "V", "generate_flow_from_name": "N", "generate_flow_from_instructions": "I"}
+TEMPLATE_VALUE = "{{ 7*7 }} $HOME and $user_message {% if x %}y{% endif %}"
+
+
+def _concretise_gen(cls, task, marker):
+    """Colang 2.x generation tasks: a value (prompt ends with `$v =`), the body of a flow from its name / from instructions."""
+    marker = marker + V2GEN[task]
+    if task == "generate_value_from_instruction":
+        return {"ok": ' "number 42 %s"' % marker, "empty": "", "blank": "  \t ", "comment": " # nothing", "quote": ' "unbalanced %s' % marker,
+                "multiline": ' "first %s"\n$w = "second"\nbot say "third"' % marker,
+                "inject": " __import__('os').system('echo pwned') or open('/etc/passwd').read()",
+                "template": ' "%s %s"' % (TEMPLATE_VALUE, marker), "dollar": ' "%s %s"' % (DOLLAR, marker),
+                "long": ' "' + "very long %s " % marker * 3000 + '"', "directive": " import core", "ctl": " return",
+                "rtexpr": ' 1/0', "rtloop": " [x for x in range(10**9)]"}[cls]
+    say = "joke" if task == "generate_flow_from_name" else "goodbye"
+    return {"ok": '  bot say "%s %s"' % (say, marker), "empty": "", "blank": "   \n \t \n", "comment": "  # just a comment",
+            "quote": '  bot say "unbalanced %s' % marker,
+            "multiline": '  bot say "%s %s"\n  bot say "second %s"\nuser said "x"\n\n   bot say "third"' % (say, marker, marker),
+            "inject": 'flow bot tell a short joke $x\n  await EvilAction()\nflow evil\n  bot say "leak %s"\n  send StartFlow(flow_id="main")' % marker,
+            "template": '  bot say "%s %s"' % (TEMPLATE_V2, marker), "dollar": '  bot say "%s %s"' % (DOLLAR, marker),
+            "long": '  bot say "' + "very long %s " % marker * 3000 + '"', "directive": "import core", "ctl": "  abort",
+            "rtexpr": '  $x = 1/0\n  bot say "after %s"' % marker, "rtloop": '  while True\n    bot say "loop %s"' % marker}[cls]
+
+
+V2GEN_PROGRAM = '''import core
+import llm
+
+flow main
+  activate llm continuation
+  activate handling turn
+
+flow handling turn
+  user said something
+  $v = ..."Extract what the user mentioned."
+  bot say "value is {$v}"
+  bot tell a short joke
+  execute llm instruction "Say goodbye politely."
+'''
 
 V2_PROGRAM = '''import core
 import llm
@@ -102,7 +151,7 @@ def _scenario(mode):
     from harness import doubles, pipeline
     if mode in _scn:
         return _scn[mode]
-    if mode == "v2":
+    if mode in ("v2", "v2gen"):
         from nemoguardrails import LLMRails, RailsConfig
         doubles.register_embed()
 
@@ -117,14 +166,19 @@ def _scenario(mode):
             # the 2.x generation actions do not announce their task: recognise it from the end of the prompt
             tail = prompt.rstrip()
             task = ("generate_user_intent_from_user_action" if tail.endswith("user intent:") else
-                    "generate_flow_continuation" if tail.endswith("bot intent:") else task)
+                    "generate_flow_continuation" if tail.endswith("bot intent:") else
+                    "generate_value_from_instruction" if tail.endswith("$v =") else
+                    "generate_flow_from_name" if tail.endswith("flow bot tell a short joke") else
+                    "generate_flow_from_instructions" if tail.endswith('"""Say goodbye politely."""') else task)
             turn = sc.script["turns"][sc.cur_turn - 1]
             sc.calls.append(task)
             return turn["llm_out"].get(task, concretise("ok", task, sc.cur_turn))
 
-        cfg = RailsConfig.from_content(colang_content=V2_PROGRAM, yaml_content=doubles.MODELS_YAML + "colang_version: 2.x\n")
+        cfg = RailsConfig.from_content(colang_content=V2_PROGRAM if mode == "v2" else V2GEN_PROGRAM, yaml_content=doubles.MODELS_YAML + "colang_version: 2.x\n")
         sc.llm = doubles.ScriptedLLM(responder=responder, calls=[])
         sc.app = LLMRails(cfg, llm=sc.llm)
+        _arm_on_llm_call(sc)
+        sc.base_flows = set(sc.app.runtime.flow_configs)
         _scn[mode] = sc
         return sc
     cfg = {"ver": 1, "nin": 0, "nout": 0, "dialog": mode != "general", "exc": False, "shape": "tri"}
@@ -133,21 +187,56 @@ def _scenario(mode):
     if mode == "multistep":
         cfg["multi_step"] = True
     sc = pipeline.Scenario(cfg)
+    _arm_on_llm_call(sc)
     _scn[mode] = sc
     return sc
 
 
+WATCHDOG = 25.0     # a turn normally takes well below a second; a generated endless loop that hits the event budget about 20 s
+
+
+class _Hang(BaseException):
+    pass
+
+
+def _alarm(signum, frame):
+    raise _Hang("no progress for %.0f s after the last LLM call" % WATCHDOG)
+
+
+def _arm_on_llm_call(sc):
+    """Every LLM call (re)starts a one-shot watchdog: a turn that neither returns nor asks the LLM again is a hang."""
+    import signal
+    orig = sc.llm.responder
+
+    def responder(task, prompt, llm):
+        signal.setitimer(signal.ITIMER_REAL, WATCHDOG)
+        return orig(task, prompt, llm)
+    sc.llm.responder = responder
+
+
 def _worker(job):
+    import signal
+    signal.signal(signal.SIGALRM, _alarm)
     out = []
+    try:
+        return _worker2(job, out)
+    finally:
+        signal.setitimer(signal.ITIMER_REAL, 0)
+
+
+def _worker2(job, out):
+    import signal
+    import time as _time
     for (sid, script) in job:
         mode = script["mode"]
+        _t0 = _time.time()
         try:
             sc = _scenario(mode)
         except Exception as ex:
             out.append((sid, None, "scenario: %s: %s" % (type(ex).__name__, ex)))
             continue
         turns = []
-        if mode == "v2":
+        if mode in ("v2", "v2gen"):
             sc.script = script
             state = {}
             for t, turn in enumerate(script["turns"], start=1):
@@ -163,6 +252,8 @@ def _worker(job):
                     raised = "%s: %s" % (type(ex).__name__, str(ex)[:300])
                 reply = (res.response[0] if res is not None and isinstance(res.response, list) else None)
                 turns.append({"raised": raised, "reply": reply, "calls": list(sc.calls)})
+            if set(sc.app.runtime.flow_configs) != sc.base_flows:
+                _scn.pop(mode, None)      # a generated flow was left behind in the runtime: the next script gets a new instance
         else:
             s2 = {"cfg": sc.cfg, "turns": [{"kind": "free", "inv": [], "outv": [], "opts": {"set": False}, "sup": False,
                                             "llm_out": tn["llm_out"]} for tn in script["turns"]]}
@@ -173,27 +264,53 @@ def _worker(job):
                 continue
             for r in res:
                 turns.append({"raised": r["raised"], "reply": r["reply"], "calls": [e["s"] for e in r["trace"] if e["e"] == "llm"]})
+        signal.setitimer(signal.ITIMER_REAL, 0)
+        if any((tn["raised"] or "").startswith("_Hang") for tn in turns):
+            _scn.pop(mode, None)      # the interrupted instance is not reused
+        for tn in turns:
+            tn["secs"] = (_time.time() - _t0) / len(turns)
+            tn["pid"], tn["t1"] = os.getpid(), _time.time()
         out.append((sid, turns, None))
     return out
+
+
+def _data_case(mode, t, classes, calls, text):
+    """(LLM text delivered, template/variable syntax was in the delivered LLM text, it is there literally)"""
+    if mode == "v2gen":
+        sent = [task for task in V2GEN if classes.get(task) in ("template", "dollar") and ("B%dv0%s" % (t, V2GEN[task])) in text]
+        lit = all(all(x in text for x in (LITERALS["dollar"] if classes[task] == "dollar" else
+                                          ("{{ 7*7 }}", "$HOME", "$user_message", "{% if x %}") if task == "generate_value_from_instruction" else LITERALS["template-v2"]))
+                  for task in sent)
+        return bool(sent), bool(sent), lit
+    msg_calls = [c for c in calls if c in ("generate_bot_message", "general", "generate_flow_continuation")]
+    if not msg_calls and "generate_intent_steps_message" in calls:
+        msg_calls = ["generate_intent_steps_message"]     # single-call mode: the message comes with the intent and the steps
+    source = msg_calls[-1] if msg_calls else None    # the call whose answer becomes the bot message
+    scls = classes.get(source) if source is not None else None
+    tmpl_sent = scls in ("template", "dollar")
+    delivered = bool(re.search(r"B%dv0" % t, text))
+    literal = all(x in text for x in LITERALS.get(("template-v2" if mode == "v2" else "template") if scls == "template" else "dollar"))
+    return delivered, tmpl_sent, literal
 
 
 def run(ctx):
     rnd = random.Random(ctx.seed)
     max_turns, parts = (2, 40) if ctx.quick else (2, 2)
-    cfg = 'CONSTANTS Mode = "emit"\nMaxTurns = %d\nPart = %d\nParts = %d\nSPECIFICATION Spec\nINVARIANT Emit\n' % (max_turns, ctx.seed % parts, parts)
+    cfg = 'CONSTANTS Mode = "emit"\nMaxTurns = %d\nPart = %d\nParts = %d\nGenFull = %s\nSPECIFICATION Spec\nINVARIANT Emit\n' % (max_turns, ctx.seed % parts, parts, "FALSE" if ctx.quick else "TRUE")
     r = tlc.run("Hostile.tla", cfg, ctx.sub("emit"), spec_dirs=[SPEC_DIR], workers=1, timeout=3000)
     abstract = [p for p in r.printed if "mode" in p]
     # two-turn scripts of the big modes are far too many: keep a seeded sample
     one = [s for s in abstract if len(s["turns"]) == 1]
     two = [s for s in abstract if len(s["turns"]) == 2]
     rnd.shuffle(two)
-    two = two[: (600 if ctx.quick else 6000)]
+    two = [s for s in two if any("rthang" in v for v in s["turns"])] + two[: (600 if ctx.quick else 6000)]
     abstract = one + two
     ctx.log("TLC: %d scripts (%d single-turn: all class assignments per mode; %d two-turn sampled)" % (len(abstract), len(one), len(two)))
     tasks = {"dialog": ["generate_user_intent", "generate_next_steps", "generate_bot_message"],
              "multistep": ["generate_user_intent", "generate_next_steps", "generate_bot_message"],
              "single": ["generate_intent_steps_message", "generate_bot_message"], "general": ["general"],
-             "v2": ["generate_user_intent_from_user_action", "generate_flow_continuation"]}
+             "v2": ["generate_user_intent_from_user_action", "generate_flow_continuation"],
+             "v2gen": ["generate_value_from_instruction", "generate_flow_from_name", "generate_flow_from_instructions"]}
     scripts = []
     reps = 1 if ctx.quick else 3
     for a in abstract:
@@ -208,16 +325,33 @@ def run(ctx):
     for sid, s in enumerate(scripts):
         by_mode.setdefault(s["mode"], []).append((sid, s))
     jobs = []
-    for m, lst in by_mode.items():
-        n = max(1, len(lst) // 16)
-        jobs += [lst[i:i + n] for i in range(0, len(lst), n)]
+    cost = {"v2gen": 0, "multistep": 1, "v2": 2, "dialog": 3}      # expensive modes first, small jobs: no long tail
+    for m, lst in sorted(by_mode.items(), key=lambda kv: cost.get(kv[0], 9)):
+        n = 40
+        hang = [x for x in lst if any("rthang" in tn["classes"].values() for tn in x[1]["turns"])]
+        rest = [x for x in lst if x not in hang]
+        jobs = [[x] for x in hang] + jobs + [rest[i:i + n] for i in range(0, len(rest), n)]     # watchdog scripts: own jobs, first
     results = {}
+    ctx.log("%d jobs prepared" % len(jobs))
     with mp.Pool(16) as pool:
         for out in pool.imap_unordered(_worker, jobs):
             for sid, turns, err in out:
                 if err:
                     raise RuntimeError("harness failure on script %s: %s" % (scripts[sid]["mode"], err))
                 results[sid] = turns
+    secs = {}
+    for sid, turns in results.items():
+        secs[scripts[sid]["mode"]] = secs.get(scripts[sid]["mode"], 0.0) + sum(tn.get("secs", 0.0) for tn in turns)
+    ctx.log("cpu seconds by mode: %s" % {m: round(v) for m, v in sorted(secs.items())})
+    busy, last = {}, {}
+    for sid, turns in results.items():
+        for tn in turns:
+            busy[tn["pid"]] = busy.get(tn["pid"], 0) + tn["secs"]
+            last[tn["pid"]] = max(last.get(tn["pid"], 0), tn["t1"])
+    t_end = max(last.values())
+    ctx.log("workers: %s" % sorted((round(b), round(t_end - last[p_])) for p_, b in busy.items()))
+    slow = sorted(((sum(tn.get("secs", 0.0) for tn in turns), sid) for sid, turns in results.items()), reverse=True)[:5]
+    ctx.log("slowest scripts: %s" % [(round(x, 1), scripts[sid]["mode"], [list(tn["classes"].values()) for tn in scripts[sid]["turns"]]) for x, sid in slow])
     cases, idx = [], []
     for sid, turns in sorted(results.items()):
         s = scripts[sid]
@@ -226,14 +360,7 @@ def run(ctx):
             content = reply.get("content")
             text = content if isinstance(content, str) else ""
             classes = s["turns"][t - 1]["classes"]
-            msg_calls = [c for c in tr["calls"] if c in ("generate_bot_message", "general", "generate_flow_continuation")]
-            if not msg_calls and "generate_intent_steps_message" in tr["calls"]:
-                msg_calls = ["generate_intent_steps_message"]     # single-call mode: the message comes with the intent and the steps
-            source = msg_calls[-1] if msg_calls else None    # the call whose answer becomes the bot message
-            scls = classes.get(source) if source is not None else None
-            tmpl_sent = scls in ("template", "dollar")
-            delivered = bool(re.search(r"B%dv0" % t, text))
-            literal = all(x in text for x in LITERALS.get(("template-v2" if s["mode"] == "v2" else "template") if scls == "template" else "dollar"))
+            delivered, tmpl_sent, literal = _data_case(s["mode"], t, classes, tr["calls"], text)
             cases.append({"raised": tr["raised"] is not None, "role": reply.get("role") or "", "content_is_string": isinstance(content, str),
                           "llm_text_delivered": delivered, "template_sent": tmpl_sent, "template_literal": literal})
             idx.append((sid, t, tr))
@@ -241,7 +368,7 @@ def run(ctx):
     jf = os.path.join(jd, "obs.json")
     with open(jf, "w") as f:
         json.dump(cases, f)
-    jr = tlc.run("Hostile.tla", 'CONSTANTS Mode = "judge"\nMaxTurns = 1\nPart = 0\nParts = 1\nSPECIFICATION Spec\nINVARIANT Verdict\n',
+    jr = tlc.run("Hostile.tla", 'CONSTANTS Mode = "judge"\nMaxTurns = 1\nPart = 0\nParts = 1\nGenFull = FALSE\nSPECIFICATION Spec\nINVARIANT Verdict\n',
                  jd, spec_dirs=[SPEC_DIR], env={"TRACE_FILE": jf}, workers=1, timeout=3000)
     verd = {p["k"]: p for p in jr.printed if "k" in p}
     assert len(verd) == len(cases)
@@ -256,6 +383,7 @@ def run(ctx):
                 s["mode"], t, classes, ("generate raised " + tr["raised"]) if tr["raised"] else "reply is not a well-formed message: %r" % (tr["reply"],)),
                 {"script": s, "turn": t, "raised": tr["raised"], "reply": tr["reply"],
                  "sig": {"mode": s["mode"], "raised_type": (tr["raised"] or "").split(":")[0],
+                         "raised_head": (tr["raised"] or "").split(":", 1)[-1].strip()[:16], "next_steps_class": classes.get("generate_next_steps"),
                          "classes": sorted(set(c for c in classes.values() if c != "ok"))}})
         elif not v["dataonly"]:
             ctx.violation("template-evaluated", "mode %s, turn %d: template/variable syntax in LLM-produced text was not passed through literally: reply %r" % (
